@@ -33,6 +33,7 @@ def dispatch (op : String) (args : List Sexp) : String :=
   | "ident.encmod" => opIdentEncMod args
   | "reply.generic" => opReplyGeneric args
   | "reply.register" => opReplyRegister args
+  | "status.ext" => opStatusExt args
   | "path.epath" => opPathEpath args
   | "path.seg" => opPathSeg args
   | "path.req" => opPathReq args
